@@ -5116,7 +5116,7 @@ class WBEMConnection:  # pylint: disable=too-many-instance-attributes
             raise ValueError('EnumerateInstances does not support'
                              ' FilterQuery.')
 
-        if ContinueOnError is not None:
+        if ContinueOnError:
             raise ValueError('EnumerateInstances does not support '
                              'ContinueOnError.')
 
@@ -5407,7 +5407,7 @@ class WBEMConnection:  # pylint: disable=too-many-instance-attributes
             raise ValueError('EnumerateInstanceNnames does not support'
                              ' FilterQuery.')
 
-        if ContinueOnError is not None:
+        if ContinueOnError:
             raise ValueError('EnumerateInstanceNames does not support '
                              'ContinueOnError.')
 
@@ -5753,7 +5753,7 @@ class WBEMConnection:  # pylint: disable=too-many-instance-attributes
             raise ValueError('Associators does not support'
                              ' FilterQuery.')
 
-        if ContinueOnError is not None:
+        if ContinueOnError:
             raise ValueError('Associators does not support '
                              'ContinueOnError.')
 
@@ -6039,7 +6039,7 @@ class WBEMConnection:  # pylint: disable=too-many-instance-attributes
             raise ValueError('AssociatorNames does not support'
                              ' FilterQuery.')
 
-        if ContinueOnError is not None:
+        if ContinueOnError:
             raise ValueError('AssociatorNames does not support '
                              'ContinueOnError.')
 
@@ -6345,7 +6345,7 @@ class WBEMConnection:  # pylint: disable=too-many-instance-attributes
             raise ValueError('References does not support'
                              ' FilterQuery.')
 
-        if ContinueOnError is not None:
+        if ContinueOnError:
             raise ValueError('References does not support '
                              'ContinueOnError.')
 
@@ -6610,7 +6610,7 @@ class WBEMConnection:  # pylint: disable=too-many-instance-attributes
             raise ValueError('ReferenceInstanceNnames does not support'
                              ' FilterQuery.')
 
-        if ContinueOnError is not None:
+        if ContinueOnError:
             raise ValueError('ReferenceInstanceNames does not support '
                              'ContinueOnError.')
 
@@ -6882,7 +6882,7 @@ class WBEMConnection:  # pylint: disable=too-many-instance-attributes
             raise ValueError('ExecQuery does not support'
                              ' ReturnQueryResultClass.')
 
-        if ContinueOnError is not None:
+        if ContinueOnError:
             raise ValueError('ExecQuery does not support '
                              'ContinueOnError.')
 
